@@ -49,6 +49,8 @@ func runC04(p *Prog, r *Result) {
 	if n := checkStatementFlagsUntouched(p, r, si, "R04k"); n == 0 {
 		r.Notef("R04k: no function of simplify.go stores a bool field or the redirections of a Stmt")
 	}
+	r.Rule("R04l", "the inside of a parenthesised test is taken only at the root of a test clause, or by a function that looks at whether it is an &&/|| chain", 1)
+	checkTestParensUnwrappedAtRoot(p, r, si, "R04l")
 	r.Rule("R04j", "the parameter expansions the parser accepts as an arithmetic assignment target and the one the `$name` inlining rewrites exclude each other (predicate disjointness: isArithName against ParamExp.simple)", 1)
 	checkInliningAvoidsTargets(p, r, si, "R04j")
 	r.Rule("R04d", "string builders used across loop iterations in the simplifier are reset on every path back to the loop head", 0)
@@ -881,6 +883,8 @@ func reachableFromAvoidingBlock(g *FGraph, b *FBlock, i int, head *FBlock, stop 
 }
 
 var c04Controls = []Control{
+	{Name: "parentheses-dropped-under-a-negation", Rule: "R04l", WantKey: "removeNegateTest#test parentheses", File: "syntax/simplify.go",
+		Mutate: ctlReplaceAnywhere("\tcase *BinaryTest:\n\t\tswitch y.Op {\n\t\tcase TsMatch:", "\tcase *ParenTest:\n\t\tswitch y.X.(type) {\n\t\tcase *UnaryTest, *BinaryTest:\n\t\t\ts.modified = true\n\t\t\treturn s.removeNegateTest(&UnaryTest{OpPos: u.OpPos, Op: TsNot, X: y.X})\n\t\t}\n\tcase *BinaryTest:\n\t\tswitch y.Op {\n\t\tcase TsMatch:")},
 	{Name: "negation-of-a-test-merged-into-its-operator", Rule: "R04k", WantKey: "mergeNegated#stores Stmt.Negated", File: "syntax/simplify.go",
 		Mutate: ctlChain(ctlReplaceAnywhere("\tcase *TestClause:\n", "\tcase *Stmt:\n\t\ts.mergeNegated(node)\n\tcase *TestClause:\n"),
 			ctlAppendDecl("func (s *simplifier) mergeNegated(st *Stmt) {\n\ttc, _ := st.Cmd.(*TestClause)\n\tif tc == nil || !st.Negated {\n\t\treturn\n\t}\n\tnot := &UnaryTest{OpPos: st.Position, Op: TsNot, X: tc.X}\n\tif x := s.removeNegateTest(not); x != TestExpr(not) {\n\t\ttc.X = x\n\t\tst.Negated = false\n\t}\n}\n"))},
